@@ -22,7 +22,7 @@ type opTables struct {
 	Abort []string
 }
 
-func (ot *opTables) set(key, val string) { ot.Cells[key] = val }
+func (ot *opTables) set(key, val string) { ot.Cells[key] = canonTable(val) }
 
 var (
 	reCast    = regexp.MustCompile(`cast\.To(Int64|Int|Float64|String|Bool|Slice)\(`)
@@ -238,6 +238,7 @@ func extractOpTables(t *Tree, pkg string) *opTables {
 	}
 	// the v2 evaluators report through ctx.Regs.ReturnAppend(V{val, tag}); GetRet hands out operands
 	v2hook := func(f *ssa.Function, operands []sval) func(fn *ssa.Function, call *ssa.Call, nth int, args []sval) (sval, bool) {
+		lastOperand := -1
 		return func(fn *ssa.Function, call *ssa.Call, nth int, args []sval) (sval, bool) {
 			cal := call.Call.StaticCallee()
 			if cal == nil {
@@ -245,12 +246,15 @@ func extractOpTables(t *Tree, pkg string) *opTables {
 			}
 			switch cal.Name() {
 			case "RunExpr":
-				if fn == f {
+				// which operand: by the argument (expr.LHS / expr.RHS), wherever the call sits (the evaluator itself
+				// or a helper it hands the node to); GetRet hands out the operand evaluated last
+				if len(args) >= 2 {
+					lastOperand = operandIndex(args[1].String(), len(operands), lastOperand+1)
 					return sval{nil: true}, true
 				}
 			case "GetRet":
-				if fn == f && nth <= len(operands) {
-					return sval{tup: []sval{operands[nth-1], {nil: true}}}, true
+				if lastOperand >= 0 && lastOperand < len(operands) {
+					return sval{tup: []sval{operands[lastOperand], {nil: true}}}, true
 				}
 			case "ReturnAppend":
 				if len(args) == 2 && args[1].tup != nil && len(args[1].tup) == 1 && args[1].tup[0].tup != nil {
@@ -265,8 +269,10 @@ func extractOpTables(t *Tree, pkg string) *opTables {
 	v1hook := func(f *ssa.Function, operands [][2]sval) func(fn *ssa.Function, call *ssa.Call, nth int, args []sval) (sval, bool) {
 		return func(fn *ssa.Function, call *ssa.Call, nth int, args []sval) (sval, bool) {
 			cal := call.Call.StaticCallee()
-			if cal != nil && cal.Name() == "RunStmt" && fn == f && nth <= len(operands) {
-				return sval{tup: []sval{operands[nth-1][0], operands[nth-1][1], {nil: true}}}, true
+			if cal != nil && cal.Name() == "RunStmt" && len(args) >= 2 {
+				if k := operandIndex(args[1].String(), len(operands), nth-1); k >= 0 && k < len(operands) {
+					return sval{tup: []sval{operands[k][0], operands[k][1], {nil: true}}}, true
+				}
 			}
 			return stdErrCall(fn, call, nth, args)
 		}
@@ -508,6 +514,18 @@ func extractOpTables(t *Tree, pkg string) *opTables {
 		}
 	}
 	return ot
+}
+
+// operandIndex: which operand a RunStmt/RunExpr call evaluates, judged by its node argument: …LHS is the first,
+// …RHS the last (the only one of a unary expression); anything else falls back to the call order.
+func operandIndex(arg string, n, fallback int) int {
+	switch {
+	case strings.HasSuffix(arg, ".LHS"):
+		return 0
+	case strings.HasSuffix(arg, ".RHS"):
+		return n - 1
+	}
+	return fallback
 }
 
 var _ = constant.MakeBool
